@@ -187,12 +187,17 @@ class MuxSocketTransportSink(ClientMessageSink):
       self._greenlets.append(self._SpawnNamedGreenlet('Send Loop', self._SendLoop))
 
       self._CheckInitialConnection()
+      if not self.isActive:
+        # The transport was shut down (e.g. the peer closed the connection)
+        # while the initial connection was being checked.
+        raise Exception('Transport was shut down while opening.')
       self._log.debug('Open successful')
       self._state = ChannelState.Open
       self._varz.active(1)
     except Exception as e:
       self._log.error('Exception opening socket')
-      self._open_result.set_exception(e)
+      if self._open_result:
+        self._open_result.set_exception(e)
       self._Shutdown('Open failed')
       raise
 
